@@ -485,6 +485,9 @@ func (in *Interp) keyString(k Value) (string, bool) {
 
 // mapFind returns the entry for key k (forking on symbolic key comparisons).
 func (in *Interp) mapFind(m *Map, k Value) *mapEntry {
+	if i, ok := k.(Iface); ok && i.T != nil && !types.Comparable(i.T) {
+		panic(in.targetPanicStr("runtime error: hash of unhashable type " + in.rtypeString(i.T)))
+	}
 	if m == nil {
 		return nil
 	}
